@@ -129,6 +129,15 @@ func (l *Lock) ForkLockKeys(off uint64) (*Lock, error) {
 	return &Lock{Chain: l.Chain.ForkWithKeyOffset(off), LibSpec: l.LibSpec, Lib: zb.Upgradeable(cp), Epc: l.Epc.Clone()}, nil
 }
 
+// ForkLockSwapped: like ForkLockKeys, the sibling uses the same new keys in pairwise swapped order.
+func (l *Lock) ForkLockSwapped() (*Lock, error) {
+	cp, err := l.Lib.BeaconState.CopyState()
+	if err != nil {
+		return nil, err
+	}
+	return &Lock{Chain: l.Chain.ForkWithSwappedKeys(), LibSpec: l.LibSpec, Lib: zb.Upgradeable(cp), Epc: l.Epc.Clone()}, nil
+}
+
 // Reload re-reads the library state from its own bytes and builds a fresh context.
 func (l *Lock) Reload() error {
 	b, err := zb.StateBytes(l.Lib)
